@@ -381,6 +381,11 @@ func runC09(c *Ctx) {
 					}
 					srcSrv.Put(proto(jd.srcKind, 1, 1, 1))
 					verify(fmt.Sprintf("cycle %d a source selects again", cycle))
+					// ... is deleted, and comes back exactly as it was
+					srcSrv.Delete(1, 1)
+					verify(fmt.Sprintf("cycle %d the selecting source is deleted", cycle))
+					srcSrv.Put(proto(jd.srcKind, 1, 1, 1))
+					verify(fmt.Sprintf("cycle %d the source is re-created with the same selection", cycle))
 					// its events are a well-formed delta of its cache: replayed from empty they give the cache
 					if js != nil {
 						evs := js.received()
